@@ -66,7 +66,7 @@ def quotaOk (cfg : Cfg) (t : Tracker) (o : Obs) (q : Nat) : Bool :=
      | .refused => !holdsSlot r a
      | .early => !holdsSlot r a
      | .none => false)
-  | .resp r => a == others r b && o.verdict == .none
+  | .resp r _ => a == others r b && o.verdict == .none
   | .err r => a == others r b && o.verdict == .none
   | .adv d =>
     o.verdict == .none &&
@@ -101,7 +101,7 @@ def lastOpen (r : Nat) : List Obs → Bool → Bool
   | [], b => b
   | o :: os, b => lastOpen r os (match o.ev with
       | .req r' _ => if r' = r then o.verdict == .admitted else b
-      | .resp r' => if r' = r then false else b
+      | .resp r' _ => if r' = r then false else b
       | .err r' => if r' = r then false else b
       | .adv _ => b)
 
@@ -118,7 +118,7 @@ def stepWhy (cfg : Cfg) (t : Tracker) (o : Obs) : String :=
       if !snapOk cfg q (o.mem q) then s!"bound-or-duplicate-broken-in-q{q}"
       else match o.ev with
         | .req _ _ => s!"request-changed-set-wrongly-or-verdict-inconsistent-in-q{q}"
-        | .resp _ => s!"slot-not-released-exactly-on-response-in-q{q}"
+        | .resp _ _ => s!"slot-not-released-exactly-on-response-in-q{q}"
         | .err _ => s!"slot-not-released-exactly-on-proxy-error-in-q{q}"
         | .adv _ => s!"gc-did-not-remove-exactly-the-expired-in-q{q}"
     | none => "spec-violated"
